@@ -1,5 +1,8 @@
 import Driver.Util
 import Bec2Verif.Model.Crc
+import Driver.OpsCrypto
+import Driver.OpsBf3
+import Driver.OpsText
 /-!
 Line-protocol driver of the executable model: one operation per input line,
 one canonical result line per operation.
@@ -35,7 +38,10 @@ def dispatch (line : String) : String :=
     | "crc" => opCrc args
     | "crcstep" => opCrcStep args
     | "crcrow" => opCrcRow args
-    | _ => "bad-op"
+    | _ =>
+      match (cryptoOps ++ bf3Ops ++ textOps).find? (·.1 == op) with
+      | some (_, f) => f args
+      | none => "bad-op"
 
 partial def loop (h : IO.FS.Stream) (out : IO.FS.Stream) : IO Unit := do
   let line ← h.getLine
